@@ -2201,9 +2201,14 @@ def lex_tokens(line):
     # protect single-character literals such as '#', '(' or ',' from the
     # comment stripping, paren padding and comma splitting done below
     literals = []
+    # the placeholder is delimited by a character that the line itself does
+    # not contain: NUL, or a private-use one if the source is that unusual
+    mark = '\x00'
+    if mark in line.contents:
+        mark = next(chr(c) for c in range(0xe000, 0xf900) if chr(c) not in line.contents)
     def protect(match):
         literals.append(match.group(0))
-        return '\x00{}\x00'.format(len(literals) - 1)
+        return '{}{}{}'.format(mark, len(literals) - 1, mark)
     contents = re.sub(r"'(\\.|[^\\'])'", protect, line.contents)
 
     # strip comments
@@ -2228,7 +2233,7 @@ def lex_tokens(line):
 
     # restore protected character literals
     restore = lambda match: literals[int(match.group(1))]
-    tokens = [re.sub('\x00([0-9]+)\x00', restore, t) for t in tokens]
+    tokens = [re.sub('{}([0-9]+){}'.format(mark, mark), restore, t) for t in tokens]
 
     # carry the line and its tokens forward
     return LineTokens(line, tokens)
